@@ -3,7 +3,7 @@ from .. import lib, runner
 
 PROP = "C07"
 THEOREMS = ["Dec.wb_pattern_iff_window", "Dec.wb_pattern_small_window", "Dec.at_most_one_cyc", "Dec.request_forwarded", "Dec.responses_of_selected", "Dec.nobody_selected_silent"]
-IMPORTS = ["SocVerif"]
+IMPORTS = ["SocVerif.Props.C07"]
 
 
 def k1_probe(rep):
